@@ -730,6 +730,7 @@ def run_thorough(prop, cfg, unit_results, seed):
     from config import WITNESS_SEARCH
     out['bounded_companions'] = []
     out['companion_violations'] = []
+    done_companions = set()
     for ur in unit_results:
         ws = WITNESS_SEARCH.get(ur.unit)
         if not ws:
@@ -737,6 +738,9 @@ def run_thorough(prop, cfg, unit_results, seed):
         args = [str(a).replace('$SEED', str(seed + 101)) for a in ws[1]]
         if len(args) > 1 and args[1].isdigit():
             args[1] = str(int(args[1]) * 4)
+        if (ws[0], tuple(args)) in done_companions:
+            continue
+        done_companions.add((ws[0], tuple(args)))
         rc_w, out_w = native_replay(ws[0], args, timeout=1500)
         out['bounded_companions'].append({'unit': ur.unit, 'case': ws[0], 'args': args, 'bounded': True, 'found_failing_input': rc_w == 1,
                                           'summary': out_w.strip().split('\n')[0][:300]})
